@@ -146,6 +146,18 @@ Theorem C06_p2sh_multisig_complete :
 Proof. exact p2sh_multisig_complete. Qed.
 Print Assumptions C06_p2sh_multisig_complete.
 
+(* the canonical P2WSH m-of-n spend: empty scriptSig, witness  <> <sig_1> .. <sig_m> <witness script> *)
+Theorem C06_p2wsh_multisig_complete :
+  forall C ripemd160 sha1 sha256 hash160 hash256 so c m keys sigs ws,
+  1 <= m <= 16 -> 1 <= zlen keys <= 16 -> zlen sigs = m -> nonempty_sigs sigs = true ->
+  length (sha256 ws) = 32%nat ->
+  parse_cmds ws = Ok (multisig_script m keys) ->
+  so_multisig so (rev keys) (rev sigs) = Ok true ->
+  verify_input C ripemd160 sha1 sha256 hash160 hash256 so c ([] :: sigs ++ [ws])
+    [] (p2wsh_script (sha256 ws)) = OTrue.
+Proof. exact p2wsh_multisig_complete. Qed.
+Print Assumptions C06_p2wsh_multisig_complete.
+
 (* k-of-n tapscript <x1> CHECKSIG <x2> CHECKSIGADD ... OP_k OP_EQUAL (MultiSigTapScript, n >= 2):
    accepted only if every (key, signature) pair could be evaluated and exactly k of them verify *)
 Theorem C06_tap_multisig_sound :
@@ -169,3 +181,11 @@ Example C06_nonvacuous_p2pkh :
     {| t_locktime := 0; t_sequence := 0; t_version := 2 |} []
     [Push [7; 1]; Push [2]] (p2pkh_script (ex_h160 [2])) = OTrue.
 Proof. apply p2pkh_complete; [discriminate|reflexivity]. Qed.
+
+(* The constants written in the model are the constants of the SOURCE: coq/Generated/SrcConsts.v is regenerated
+   from /repo/buidl/*.py by harness/gen_coq_consts.py on every run; the statements are spelled out in
+   Proofs/ConstsTie.v (op_table_domain_is_source_stmt, op_nop_codes_are_source_stmt, secp256k1_is_source_stmt). *)
+From V Require Proofs.ConstsTie.
+Theorem C06_constants_match_source : ConstsTie.op_table_domain_is_source_stmt /\ ConstsTie.op_nop_codes_are_source_stmt /\ ConstsTie.secp256k1_is_source_stmt.
+Proof. exact (conj ConstsTie.op_table_domain_is_source (conj ConstsTie.op_nop_codes_are_source ConstsTie.secp256k1_is_source)). Qed.
+Print Assumptions C06_constants_match_source.
